@@ -46,8 +46,9 @@ CHECKS["C15"] = mir_check("Ordering lemma on save_modified_file's MIR: every pat
 CHECKS["C18"] = mir_check("Ok-continuation lemma: applied-patches is written only when the driver returned Ok, an Err never becomes Ok in cmd_push, and main returns status 0 only for Ok(true). "
     "That every individual write error is propagated needs syscall fault injection: outside this technique.", "DESIGN.md §2 C18")
 CHECKS["C13"] = dict(level="model_checking", engine="kani+mirvc",
-    text="Guards decided over MIR (a reject file is created only for a file patch of the rejected patch whose report failed; the failing patch's other file patches are still attempted; "
-         "rollback and rejects precede save); the writer part (write_rej_to emits exactly the failed hunks) is decided by Kani where it fits.",
+    text="Guards decided over MIR: a reject file is created only for a file patch of the rejected patch whose report failed; the reject pass returns Ok only when the stack top no longer belongs to the rejected patch (no arm leaves the loop early); "
+         "the failing patch's other file patches are still attempted by every worker and later ones are not; rollback and rejects precede save. Writer (Kani): write_rej_to's output for one failed one-line hunk with symbolic bytes is exactly the file header, "
+         "the hunk header and the hunk's lines as records; nothing is written when every hunk applied (1-3 hunks).",
     technique="bounded model checking (Kani/CBMC) of the reject writer plus SMT-decided guard VCs over the drivers' MIR", ref="DESIGN.md §2 C13", note=KANI_NOTE + " " + MIR_NOTE)
 
 def kani_check(text, ref, technique="bounded model checking of the real code (Kani/CBMC, SAT) with symbolic contents; reference oracle written from the property text", engine="kani"):
@@ -64,20 +65,31 @@ CHECKS["C04"] = dict(level="model_checking", engine="kani+mirvc",
          "create/delete with every name/file-state combination and symbolic modes, rename undo via move_out/move_in; rollback's panic is a checked property. LIFO over a stack follows by composition. "
          "Driver glue (MIR): every FilePatch::rollback call passes the direction recorded in the report it undoes.",
     technique="bounded model checking (Kani/CBMC) of apply+rollback; SMT-decided VC over the drivers' MIR for the undo direction", ref="DESIGN.md §2 C04", note=KANI_NOTE + " " + MIR_NOTE)
-CHECKS["C07"] = kani_check("FilenameDistributor<u8>: for every concrete prefix of add calls over 3 names (up to renaming symmetry; 4 names / longer prefixes in the thorough tier) the solver decides the last call "
-    "(both names, rename or not) and the thread count 1..16: names related in a reference union-find get one worker id, every id < thread_count. std HashMap is replaced by an association list on the overlay; replay uses the real HashMap.", "DESIGN.md §2 C07")
+CHECKS["C07"] = kani_check("FilenameDistributor<u8>, one inductive step from an ARBITRARY valid union-find state instead of call histories: the parent array is symbolic under the representation invariant cc[i] <= i "
+    "(every such forest is reachable by some add history), N <= 5 names (7 in the thorough tier); build(): every name goes to its representative's worker, ids < thread_count for every thread count 1..16; add(): for every call (both names, "
+    "rename or not, new names in order of appearance) the invariant is kept and exactly the two components of the call are merged. Plus concrete call prefixes with a symbolic last call. std HashMap is an association list on the overlay; replay uses the real HashMap.", "DESIGN.md §2 C07, §11")
+
 CHECKS["C11"] = kani_check("Every sub-parser on fully symbolic buffers (<= 12 bytes; keyword lines with symbolic tails): no panic / overflow / out-of-bounds / unwrap-on-None, termination inside the unwinding bound, remainder a strict suffix; "
     "numeric header fields: every 1..21-digit string gives its value or an error, extreme values (2^63, 2^64-1, 10^12, ...) through parse_hunk with capacity <= input length; placement terminates within a file-size bound for every stated line up to 2^62.",
     "DESIGN.md §2 C11")
-CHECKS["C12"] = kani_check("write-then-parse on (i) hunk headers for start lines {0,1,9,10,98,99} x empty/non-empty sides, (ii) hunk bodies up to 3 lines with symbolic bytes from a 4-letter alphabet and missing final newlines, "
-    "(iii) concrete file headers per kind / rename / modes / hashes: the written form parses to the same structure and writing it again reproduces it byte for byte.", "DESIGN.md §2 C12")
+CHECKS["C12"] = dict(level="model_checking", engine="kani+mirvc",
+    text="Hunk level only. (i) header: start lines {0,1,9,10,98,99} x empty/non-empty sides through the real formatter are parsed back to the same start lines and counts (Kani); the start-line arithmetic of write_header_to composed with "
+         "parse_hunk's target_line is the identity for EVERY 64-bit value (function summaries over MIR composed in z3). (ii') body: for hunks with <= 1 line per side (<= 2 in the thorough tier) and symbolic bytes the records write_to emits are, in order, "
+         "exactly the old and the new sequence, a context record only for a line equal on both sides (Kani, record scan; with C01's lemma 1 this gives write-then-parse). File headers, the parser round trip on symbolic bytes and larger hunks are outside (stated in the evidence).",
+    technique="bounded model checking (Kani/CBMC) of the hunk writer; SMT-composed function summaries over MIR for the start-line arithmetic", ref="DESIGN.md §2 C12, §11", note=KANI_NOTE + " " + MIR_NOTE)
+
 CHECKS["C16"] = dict(level="model_checking", engine="kani+mirvc",
-    text="FilePatch::strip on symbolic name bytes over {a . /} drops exactly N leading components of both names (bytewise reference: runs of slashes once, '.' dropped except leading); "
-         "MIR: choose_filename_to_patch returns the old name iff it exists in memory (not deleted) or, when not loaded, on disk, else the new name, never neither; apply direction is Revert iff the series entry says -R and the fuzz passed is config.fuzz. "
-         "Series-line parsing (getopts over BufReader lines) is outside.",
-    technique="bounded model checking (Kani/CBMC) of strip; SMT-decided decision-table VC over MIR", ref="DESIGN.md §2 C16", note=KANI_NOTE + " " + MIR_NOTE)
-CHECKS["C19"] = kani_check("For every file name over {a . /} up to 6 bytes (Borrowed and Owned) and strip 0..2 the unsafe-name check agrees with a bytewise reference (a '..' or root component left after dropping N components); "
-    "concrete end-to-end runs show parse_patch refuses such a file patch (plain, quoted-octal, git-line-only, second file) and keeps accepting names that stripping made safe.", "DESIGN.md §2 C19")
+    text="FilePatch::strip on symbolic name bytes over {a . /} (<= 4 bytes, Borrowed and Owned) leaves exactly the bytes from the (N+1)-th component on, for both names (bytewise reference: runs of slashes once, '.' dropped except leading); "
+         "MIR: every SeriesPatch built by read_series_file has strip == N for a usable -pN and 1 otherwise, no -R without the option; choose_filename_to_patch returns the old name iff it exists in memory (not deleted) or, when not loaded, on disk, "
+         "else the new name, never neither; apply direction is Revert iff the series entry says -R and the fuzz passed is config.fuzz. getopts' own parsing of the option words is outside.",
+    technique="bounded model checking (Kani/CBMC) of strip; SMT-decided decision-table VCs over MIR", ref="DESIGN.md §2 C16", note=KANI_NOTE + " " + MIR_NOTE)
+
+CHECKS["C19"] = dict(level="model_checking", engine="kani+mirvc",
+    text="MIR: parse_patch strips, then calls the unsafe-name check for every file patch and returns Err when it fires, on every path; is_unsafe classifies Prefix / root / '..' components as dangerous and '.' / normal ones as safe (decision table). "
+         "Kani: strip on symbolic names leaves exactly the bytes after the first N components (shared with C16); concrete patch texts show the refusal end to end (plain, quoted-octal, git-line-only, old-name-only, second file) and that names made safe by stripping stay accepted. "
+         "The unsafe-name check composed with strip on symbolic names is outside (Components::any over symbolic bytes exceeds 8 GB for 3 bytes).",
+    technique="SMT-decided VCs over MIR (wiring, decision table) plus bounded model checking (Kani/CBMC) of strip and of concrete refusals", ref="DESIGN.md §2 C19", note=KANI_NOTE + " " + MIR_NOTE)
+
 CHECKS["C20"] = kani_check("The same file patch is applied at fuzz limit F and F+1 (F in {0,1}) on equal copies with symbolic line bytes, for every stated line 0..4 of a 4-line file: ok at F implies ok at F+1 with identical per-hunk "
     "(line, offset, fuzz) and identical content; the recorded fuzz is the least level at which the reference placement finds a position.", "DESIGN.md §2 C20")
 
